@@ -229,6 +229,8 @@ def main():
         jobs.append((rs.job_packing, {'cls': cls, 'l': 3}))
     for stack in ([(0, True, True)], [(0, False, False), (0, False, False)]):
         jobs.append((c02.job_collapse_glue, {'stack': stack}))
+    import c06
+    jobs.append((c06.job_whole, {'stack': [(0, True, True)], 'nondim': True}))      # single uniform layer: starting call, solver arguments, storage layout, extents
     meta = {
         'explanation': 'The solver cannot integrate an ODE; it decides that every ALGEBRAIC link of the shooting pipeline is exact. (1) The three polynomial regular solutions of the uniform-sphere problem '
                        '(built by untrusted sympy linear algebra) satisfy the real SolidStaticIncompressible.diffeq component-wise; (2) pushed through the real bc_pointer construction, cf_apply_surface_bc '
